@@ -103,9 +103,9 @@ func c10Run(c *core.Ctx) {
 	}
 	var scopes []scope
 	if c.Tier == core.Quick {
-		scopes = []scope{{9, 2, []int64{ms, hour + ms}}, {6, 3, []int64{ms}}, {4, 4, []int64{sec}}}
+		scopes = []scope{{9, 3, []int64{ms}}, {6, 4, []int64{ms}}, {9, 2, []int64{hour + ms}}, {4, 3, []int64{ns, sec}}}
 	} else {
-		scopes = []scope{{9, 3, []int64{ms, hour + ms}}, {6, 4, []int64{ms}}, {6, 3, []int64{ns, sec}}}
+		scopes = []scope{{9, 3, []int64{ms, hour + ms}}, {6, 4, []int64{ms}}, {6, 3, []int64{ns, sec}}, {7, 4, []int64{ms}}, {4, 5, []int64{ms}}}
 	}
 	texts := []string{"x", "y"}
 	for _, sc := range scopes {
@@ -180,8 +180,8 @@ func init() {
 		ID: "C10", Level: "model_checking",
 		Rule: "states = canonical start-ordered cue lists; transitions = Fragment(f) by the real code on a fresh real list, compared with per-cue cutting (multiset of pieces with text/style/region, order by start, no interior multiple left, style/region objects shared); every list in scope is an initial state; second-level transitions start from fragmented (non-initial) states; non-trivial = at least one cue was cut",
 		Scope: map[core.Tier]string{
-			core.Quick:    "all start-ordered lists (overlap, nesting, duplicates, last-listed != last-ending) of <=2 cues on 0..9 (units 1ms, 1h+1ms), <=3 cues on 0..6 (1ms), <=4 cues on 0..4 (1s), two texts, f in 1..5 grid steps; Fragment after Fragment for <=2 cues on 0..6",
-			core.Thorough: "the property's own scope: <=3 cues on 0..9 (1ms, 1h+1ms), <=4 cues on 0..6 (1ms), <=3 on 0..6 (1ns,1s), two texts, f in 1..5",
+			core.Quick:    "the property's own exhaustive scope: all start-ordered lists (overlap, nesting, duplicates, last-listed != last-ending) of <=3 cues on 0..9 and <=4 cues on 0..6 (1ms), plus <=2 cues on 0..9 (1h+1ms) and <=3 on 0..4 (1ns,1s), two texts, f in 1..5 grid steps; Fragment after Fragment for <=2 cues on 0..6",
+			core.Thorough: "the property's own scope and beyond: <=3 cues on 0..9 (1ms, 1h+1ms), <=4 cues on 0..6 and on 0..7 (1ms), <=5 cues on 0..4, <=3 on 0..6 (1ns,1s), two texts, f in 1..5",
 		},
 		Assumptions: []string{"Go toolchain and standard library", "input ordered by start, end > start, f > 0 (property preconditions)", "reference model refops.Fragment"},
 		Plain:       c10Run, Replay: c10Replay,
